@@ -89,14 +89,17 @@ OrderCases ==
            sb \in {{}, {"s1"}, {"s1", "s2"}}}
 
 \* "prog" family: up to n template files in parent and subchart, each computing its payload with one
-\* program (values, include / tpl nesting depth 2, Files.Get / Glob, files outside the chart, DNS);
+\* program (values, include / tpl nesting depth 2, Files.Get / Glob, files outside the chart, DNS, state
+\* written by one file and read by another of the same chart or of the parent, mutation of a default list, fail);
 \* the named templates are defined twice (parent and subchart partial)
-ProgsP == {"LIT", "VAL", "INC", "INC2", "TPL", "TPL2", "FGET", "FGLOB", "FOUT", "DNS"}
+ProgsP == {"LIT", "VAL", "INC", "INC2", "TPL", "TPL2", "FGET", "FGLOB", "FOUT", "DNS", "SET", "GET", "GETS", "MUT", "FAIL"}
+\* GETS reads the subchart's state through .Values.s1: only meaningful in a file of the parent
+ProgOK(asg) == \A p \in DOMAIN asg : asg[p] = "GETS" => p \in {11, 12}
 ProgCase(asg, pa, dns) ==
   LET ps == RanksSeq(DOMAIN asg) IN
   Case("prog", [j \in DOMAIN ps |-> OneDoc(ps[j], "plain", asg[ps[j]])], pa, {8}, {"s1"}, {}, "none", FALSE, dns, "none", "p")
 ProgCases(n) ==
-  LET A == UNION {[S -> ProgsP] : S \in {T \in SUBSET {3, 4, 11, 12} : Cardinality(T) \in 1..n}} IN
+  LET A == {a \in UNION {[S -> ProgsP] : S \in {T \in SUBSET {3, 4, 11, 12} : Cardinality(T) \in 1..n}} : ProgOK(a)} IN
   {ProgCase(asg, {2, 9}, FALSE) : asg \in A}
   \cup {ProgCase(asg, {2, 9}, TRUE) : asg \in {a \in A : "DNS" \in Range(a) /\ Cardinality(DOMAIN a) <= 2}}
 
